@@ -146,3 +146,8 @@ pub use wtransport_proto as proto;
 pub use quinn;
 
 mod driver;
+
+/// Verification harnesses and contract helpers (compiled only by `cargo kani`; sources in /verif).
+#[cfg(kani)]
+#[path = "/verif/kani/driver/mod.rs"]
+mod verif_kani;
